@@ -3,7 +3,8 @@ sys.path.insert(0, str(__import__("pathlib").Path(__file__).resolve().parent))
 import vlib
 from props import c03
 seed=int(sys.argv[1]); n=int(sys.argv[2])
-muts=[["mutant","--seed",seed,"--index",i,"--grid",30,"--pygrid",86400] for i in range(n)]
+grid=int(sys.argv[3]) if len(sys.argv)>3 else 30; pygrid=int(sys.argv[4]) if len(sys.argv)>4 else 86400   # thorough tier: 5 / 23400
+muts=[["mutant","--seed",seed,"--index",i,"--grid",grid,"--pygrid",pygrid] for i in range(n)]
 res=c03.run_workers(muts, parallel=8, jobs_each=2)
 keys=collections.Counter(); rej=0
 for argv,r in res:
